@@ -34,7 +34,7 @@ def base_text(name):
 CELL_VALUES = [
     "", "default", "DEFAULT", "0", "1", "-1", "2", "3", "64", "999", "1e3", "1.5", "0x10", " 7 ", "+5", "1_0", "٣", "TRUE", "false", "yes", "maybe",
     "high_quality", "low_delay", "unconstrained", "hd", "pictures_are_fields", "le_gall_5_3", "fidelity", "color_4_2_0", "interlaced",
-    "column_A", "column_B", "column_C", "column_D", "column_E", "minimal", "hd",
+    "hd_{lossy}", "{0}", "a{b", "cfg{}", "x}y", "%s", "100%", "column_A", "column_B", "column_C", "column_D", "column_E", "minimal", "hd",
     "custom_format", "hd1080p_50", "0 0 0 0", "1 2 3", "1 2 3 4 5 6 7", "a b c d", "-1 -1 -1 -1", "\"", "\"x", "a,b", "9" * 30, "9" * 5000, "\x00", "\ufeff", "name",
 ]
 ROW_KEYS = ["name", "level", "profile", "base_video_format", "picture_coding_mode", "frame_width", "frame_height", "color_diff_format_index", "source_sampling",
@@ -90,6 +90,18 @@ def apply_text_fault(text, f):
         cells[1 + i] = "column_" + letters[(1 + j) % 26]
         cells[1 + j] = ""
         lines[n] = ",".join(cells)
+        return "\n".join(lines)
+    if k == "col_pair":
+        # two cells of ONE column (two cooperating sites)
+        for row, v in ((f["row1"], f["v1"]), (f["row2"], f["v2"])):
+            idxs = [n for n, l in enumerate(lines) if l.split(",")[0].strip() == row]
+            if not idxs:
+                continue
+            cells = lines[idxs[0]].split(",")
+            c = 1 + f["col"] % max(1, len(cells) - 1) if len(cells) > 1 else 0
+            if c < len(cells):
+                cells[c] = v
+            lines[idxs[0]] = ",".join(cells)
         return "\n".join(lines)
     if k == "add_row":
         cells = [f["key"]] + [f["v"]] * f["ncol"]
@@ -147,7 +159,7 @@ class C28(Spec):
         nf = 0 if r < 0.05 else 1 if r < 0.55 else 2 if r < 0.8 else rng.choice([3, 4])
         faults = []
         for _ in range(nf):
-            k = rng.choice(["trunc", "drop_line", "dup_line", "swap_lines", "cell", "cell", "cell", "cell", "add_row", "add_col", "char", "ins", "crlf", "bom", "name_collision"])
+            k = rng.choice(["trunc", "drop_line", "dup_line", "swap_lines", "cell", "cell", "cell", "cell", "add_row", "add_col", "char", "ins", "crlf", "bom", "name_collision", "col_pair", "col_pair"])
             f = {"k": k}
             if k == "trunc":
                 f["at"] = rng.randrange(len(text) + 1)
@@ -157,6 +169,11 @@ class C28(Spec):
                 f["i"], f["j"] = rng.randrange(nlines), rng.randrange(nlines)
             elif k == "name_collision":
                 f["i"], f["j"] = rng.randrange(8), rng.randrange(8)
+            elif k == "col_pair":
+                f["col"] = rng.randrange(8)
+                f["row1"] = rng.choice(["name", "name", "lossless", "dwt_depth", "dwt_depth_ho", "profile"])
+                f["row2"] = rng.choice(ROW_KEYS)
+                f["v1"], f["v2"] = rng.choice(CELL_VALUES), rng.choice(CELL_VALUES)
             elif k == "cell":
                 f["row"] = rng.choice(ROW_KEYS + ["name", "name", "name"]) if rng.random() < 0.85 else rng.randrange(nlines)
                 f["col"] = rng.randrange(8)
